@@ -3407,6 +3407,24 @@ func bigIntValueParser(convert func(*big.Int) (Value, bool)) StringValueParser {
 	}
 }
 
+// hasSignPrefix returns true if the input starts with a '+' or '-'.
+// The unsigned number types do not accept a sign prefix,
+// independently of whether they are parsed using strconv.ParseUint, big.Int, or the fixed-point parser.
+func hasSignPrefix(input string) bool {
+	return len(input) > 0 && (input[0] == '+' || input[0] == '-')
+}
+
+// unsignedParser wraps a parser for an unsigned number type, so that it rejects a sign prefix:
+// input strings must not begin with a '+' or '-' (just like for unsignedIntValueParser).
+func unsignedParser(parser StringValueParser) StringValueParser {
+	return func(gauge common.Gauge, input string) OptionalValue {
+		if hasSignPrefix(input) {
+			return NilOptionalValue
+		}
+		return parser(gauge, input)
+	}
+}
+
 // check if val is in the inclusive interval [low, high]
 func inRange(val *big.Int, low *big.Int, high *big.Int) bool {
 	return -1 < val.Cmp(low) && val.Cmp(high) < 1
@@ -3477,27 +3495,27 @@ var StringValueParsers = func() map[string]TypedStringValueParser {
 		},
 		{
 			ReceiverType: sema.UInt128Type,
-			Parser: bigIntValueParser(func(b *big.Int) (v Value, ok bool) {
+			Parser: unsignedParser(bigIntValueParser(func(b *big.Int) (v Value, ok bool) {
 				if ok = inRange(b, sema.UInt128TypeMinIntBig, sema.UInt128TypeMaxIntBig); ok {
 					v = NewUnmeteredUInt128ValueFromBigInt(b)
 				}
 				return
-			}),
+			})),
 		},
 		{
 			ReceiverType: sema.UInt256Type,
-			Parser: bigIntValueParser(func(b *big.Int) (v Value, ok bool) {
+			Parser: unsignedParser(bigIntValueParser(func(b *big.Int) (v Value, ok bool) {
 				if ok = inRange(b, sema.UInt256TypeMinIntBig, sema.UInt256TypeMaxIntBig); ok {
 					v = NewUnmeteredUInt256ValueFromBigInt(b)
 				}
 				return
-			}),
+			})),
 		},
 		{
 			ReceiverType: sema.UIntType,
-			Parser: bigIntValueParser(func(b *big.Int) (Value, bool) {
+			Parser: unsignedParser(bigIntValueParser(func(b *big.Int) (Value, bool) {
 				return NewUnmeteredUIntValueFromBigInt(b), true
-			}),
+			})),
 		},
 
 		// Word*
@@ -3519,21 +3537,21 @@ var StringValueParsers = func() map[string]TypedStringValueParser {
 		},
 		{
 			ReceiverType: sema.Word128Type,
-			Parser: bigIntValueParser(func(b *big.Int) (v Value, ok bool) {
+			Parser: unsignedParser(bigIntValueParser(func(b *big.Int) (v Value, ok bool) {
 				if ok = inRange(b, sema.Word128TypeMinIntBig, sema.Word128TypeMaxIntBig); ok {
 					v = NewUnmeteredWord128ValueFromBigInt(b)
 				}
 				return
-			}),
+			})),
 		},
 		{
 			ReceiverType: sema.Word256Type,
-			Parser: bigIntValueParser(func(b *big.Int) (v Value, ok bool) {
+			Parser: unsignedParser(bigIntValueParser(func(b *big.Int) (v Value, ok bool) {
 				if ok = inRange(b, sema.Word256TypeMinIntBig, sema.Word256TypeMaxIntBig); ok {
 					v = NewUnmeteredWord256ValueFromBigInt(b)
 				}
 				return
-			}),
+			})),
 		},
 
 		// Fix*
@@ -3588,6 +3606,10 @@ var StringValueParsers = func() map[string]TypedStringValueParser {
 			ReceiverType: sema.UFix64Type,
 			Parser: func(gauge common.Gauge, input string) OptionalValue {
 
+				if hasSignPrefix(input) {
+					return NilOptionalValue
+				}
+
 				common.UseComputation(
 					gauge,
 					common.ComputationUsage{
@@ -3608,6 +3630,10 @@ var StringValueParsers = func() map[string]TypedStringValueParser {
 		{
 			ReceiverType: sema.UFix128Type,
 			Parser: func(gauge common.Gauge, input string) OptionalValue {
+
+				if hasSignPrefix(input) {
+					return NilOptionalValue
+				}
 
 				common.UseComputation(
 					gauge,
